@@ -368,6 +368,31 @@ pub fn exec_guarded_io<I: Read, O: Write>(
     }
 }
 
+/// Several programs run one after another on ONE `Environment` and ONE `ExecStmt` (the public API a REPL would
+/// use: `ExecStmt::new(&env)`, `visit_program(&mut self, ..)`). Returns, per program, what it printed and how it
+/// ended; `Err` if anything panicked.
+pub fn exec_sequence_guarded(progs: &[&Program], fuel: u64) -> Result<Vec<(Vec<u8>, Result<(), String>)>, PanicInfo> {
+    use rrss::analysis::visit::VisitProgram;
+    let captured = SharedBuf::new();
+    let out = captured.clone();
+    rrss::verif::reset_seq();
+    rrss::verif::arm_stmt(fuel, false);
+    set_trap(true);
+    let r = guarded(|| {
+        let env = rrss::exec::environment::Environment::refcell_raw(&b""[..], out);
+        let mut exec = rrss::exec::exec_stmt::ExecStmt::new(&env);
+        let mut res = Vec::new();
+        for p in progs {
+            let r = exec.visit_program(p).map_err(|e| e.to_string());
+            res.push((captured.take(), r));
+        }
+        res
+    });
+    rrss::verif::arm_stmt(u64::MAX, false);
+    rrss::verif::set_trap(false);
+    r
+}
+
 // --------------------------------------------------------------------------- recording I/O (C08)
 
 #[derive(Clone, Debug, PartialEq, Eq)]
